@@ -892,6 +892,8 @@ def main():
         # can end while a thread is inside the INSPECT round trip it makes from within a dispatch
         from harness.drivers import serve_nested as sn
         svc.explore_eof(chk, "2p", on_bad, 40 if not chk.thorough else 400)
+        # the real Connection.serve_threaded(2) in a thread of the program: its workers end, it joins them and closes
+        svc.explore_eof(chk, "2st", on_bad, 30 if not chk.thorough else 300)
         for name in (("n2a",) if not chk.thorough else ("n2a", "n2ab", "n3a")):
             ncfg = sn.NCONFIGS[name]
             svc.explore_eof(chk, name, on_bad, 40 if not chk.thorough else 400, configs=sn.NCONFIGS,
